@@ -19,6 +19,16 @@ CHECKS = {
         "ref": "DESIGN.md 5/C09", "technique": "TLA+ case matrix + budget contract; TLC-generated cases replayed in resource-limited processes; trace validation",
         "note": "Budget constants are deliberately loose (observed maximum on the repaired tree is 1.5% of the allocation budget); native coverage-guided fuzzing is not used (different technique).",
     },
+    "C10": {
+        "text": "ImageXform.tla models TransformImageColor's row striping over the linear backing array of the destination's parent exactly as PixOffset computes it; TLC explores all interleavings of up to 3 workers and proves WriteOnce (workers disjoint), InSubImage (no write outside the destination, none in the parent's margins), Exact (every destination pixel dstMin+(p-srcMin) holds source pixel p, nothing else written) and in-place safety; mutant designs (offset from Max, stripe step P+1) are rejected. Every configuration of a larger bounded space (sizes 0..3, three origins for source and destination independently, destination larger by 0/1, four parent-margin patterns, in place) is printed with the specification's write map and replayed on the real code: the 8 real transforms on all listed source types x 5 destination types with every byte of the parent's Pix compared, and TransformImageColor with position-coded colours whose observed write map TLC compares with Expected(cfg).",
+        "ref": "DESIGN.md 5/C10", "technique": "TLA+ model of worker striping and PixOffset geometry checked by TLC; TLC-generated configurations replayed on real images; trace validation of observed write maps",
+        "note": "Pixel values expected = destination type's Set of the package's per-colour function applied to src.At(p); subsampled YCbCr sources are kept at non-negative origins (stdlib limitation).",
+    },
+    "C15": {
+        "text": "PixelConv.tla transcribes the integer pixel semantics of image/color (RGBA() of every standard colour type, the RGBA/RGBA64/NRGBA model conversions, the fixed-point YCbCr formula) with all arithmetic kept below 2^31, and TLC checks lemmas on the transcription. The three helpers are run on images enumerating all 2^16 NRGBA (channel, alpha) pairs, all valid RGBA pairs, YCbCr R over all (Y,Cr) and B over all (Y,Cb), CMYK, 16-bit sweeps, grey, alpha, paletted, and on 18 source types x 7 rectangles x sub-images x parallelism; TLC judges every recorded pixel with Conv and every structural observation (bounds kept, same instance exactly when the input has the target type, input untouched). draw.Draw(Src) runs on the same inputs as a validator of the transcription.",
+        "ref": "DESIGN.md 5/C15", "technique": "TLA+ transcription of integer pixel functions (role B) checked by TLC; trace validation of helper outputs; draw.Draw as transcription validator",
+        "note": "Valid premultiplied source colours only; all 2^24 YCbCr triples are not enumerated (R and B exhaustively over their two inputs, G on the lattices the sweeps contain).",
+    },
     "C11": {
         "text": "LazyLut.tla models the lazy 16-bit tables and sync.Once step by step with a vector-clock happens-before relation; TLC explores all interleavings for 2 and 3 goroutines and proves NoRace, RetOK (every call returns the sequential value), BuiltOnce and termination for the repaired design, and finds the race in the as-found (nil-check fast path) and plain-flag designs. Every hook-level schedule TLC generates for N=2 (and a seeded sample for N=3) is forced onto each of the six real tables with spin gates on plain memory in //go:norace functions, in fresh processes under the race detector, together with un-gated first-use trials (N up to 64, GOMAXPROCS 1..16, also through LineariseColor/EncodeColor, image transforms with parallelism > 1, concurrent loaders and adaptation constructors). Hook traces recorded from the real code are validated against LazyLut with the unlogged steps inferred by TLC.",
         "ref": "DESIGN.md 5/C11", "technique": "TLA+ model with vector clocks checked by TLC; TLC schedules replayed on the real code under the Go race detector; trace validation with inferred unlogged steps",
